@@ -115,7 +115,15 @@ def flatten(repo, fn, depth=2, only=None):
         if any(isinstance(x, (ast.Yield, ast.YieldFrom, ast.Lambda)) for x in ast.walk(callee.node)):
             return None
         params = [a.arg for a in callee.node.args.args]
+        cls_subst = None
         if params and params[0] in ("self", "cls") and bound:
+            if params[0] == "cls" and any(isinstance(x, ast.Name) and x.id == "cls" for x in ast.walk(callee.node)):
+                # a class method that uses `cls`: inlined only when the class is named at the call site (Class.method(...)); `cls` then stands for that class
+                recv = call.func.value if isinstance(call.func, ast.Attribute) else None
+                if isinstance(recv, ast.Name) and recv.id in repo.classes:
+                    cls_subst = recv.id
+                elif not (isinstance(recv, ast.Name) and recv.id == "cls" and owner.is_classmethod):
+                    return None
             params = params[1:]
         defaults = callee.node.args.defaults
         dmap = dict(zip(params[len(params) - len(defaults):], defaults)) if defaults else {}
@@ -149,6 +157,9 @@ def flatten(repo, fn, depth=2, only=None):
             return None
         if form == "expr" and any(isinstance(x, ast.Return) and x.value is not None for x in ast.walk(callee.node)) and not _tail_returns_only(cbody):
             return None
+        if cls_subst is not None:
+            mapping = dict(mapping)
+            mapping["cls"] = ast.Name(id=cls_subst, ctx=ast.Load())
         body = [_Subst(mapping, rename).visit(copy.deepcopy(b)) for b in cbody]
 
         def make(e):
